@@ -7,7 +7,7 @@
 (* points all occur.                                                        *)
 EXTENDS ImmutableDb, TLC
 
-CONSTANTS MaxSlot, MaxFiles, MaxPerChunk
+CONSTANTS MaxSlot, MaxFiles, MaxPerChunk, MaxEmpty
 
 Blk(s) == [slot |-> s, h |-> 1 + (s % 2)]
 
@@ -22,8 +22,13 @@ Upto(s) ==
              \cup { [d EXCEPT ![Len(d)] = Append(@, b)] :
                         d \in { e \in prev : e # <<>> /\ Len(e[Len(e)]) < MaxPerChunk } }
              \cup { Append(d, <<b>>) : d \in { e \in prev : Len(e) < MaxFiles } }
+             \* an empty chunk file in front of the new one (at most MaxEmpty per database)
+             \cup { Append(Append(d, <<>>), <<b>>) :
+                        d \in { e \in prev : Len(e) + 1 < MaxFiles /\ Cardinality({ c \in 1..Len(e) : e[c] = <<>> }) < MaxEmpty } }
 
-MCDBs == Upto(MaxSlot + 1)
+\* ... and possibly an empty chunk file at the very end (it is the dropped / last immutable one)
+MCDBs == LET U == Upto(MaxSlot + 1)
+         IN  U \cup { Append(d, <<>>) : d \in { e \in U : Len(e) < MaxFiles /\ Cardinality({ c \in 1..Len(e) : e[c] = <<>> }) < MaxEmpty } }
 
 MCPoints == { Origin }
             \cup { Fuzzy(s) : s \in 0..(MaxSlot + 1) }
